@@ -52,12 +52,20 @@ Theorem C17_pack_shape : forall {A} (a : A) (x y : gval A),
 Proof. intros. split; [apply pack_shape | intros; apply comb_node_cases]. Qed.
 Print Assumptions C17_pack_shape.
 
+(* reading a literal at an annotated type (PUSH ty lit, UNPACK ty): the value read at the re-annotated type is the
+   re-annotated value, and it is rejected at one iff at the other *)
+Theorem C17_read_literal_blind : forall {A B} (f : A -> B) t n,
+  read (tmap f t) n = option_map (gmap f) (read t n).
+Proof. intros A B f. exact (read_gmap f). Qed.
+Print Assumptions C17_read_literal_blind.
+
 (* Programs over the comb fragment: executing the re-annotated program on the re-annotated stack gives the
    re-annotated result and fails exactly when the original fails.
    PARTIAL with respect to the property text ("all programs over the core instruction set"): the instruction
-   set here is PUSH, GET n, UPDATE n, PAIR n, UNPAIR n, CAR, CDR, PAIR, UNPAIR, COMPARE, PACK, DUP, SWAP, DROP
-   over int/nat/mutez/string/bytes/bool/unit/pair/option/or values; control flow, collections, arithmetic
-   and domain types are not in this model. *)
+   set here is PUSH ty lit, UNPACK ty, GET n, UPDATE n, PAIR n, UNPAIR n, CAR, CDR, PAIR, UNPAIR, COMPARE, EQ, PACK,
+   DUP, SWAP, DROP, SOME, NONE ty, LEFT ty, RIGHT ty, UNIT, sequencing, IF, IF_NONE, IF_LEFT, DIP n (type arguments
+   enter through PUSH, UNPACK, NONE, LEFT, RIGHT) over int/nat/mutez/string/bytes/bool/unit/pair/option/or values;
+   loops, collections, arithmetic, lambdas and domain types are not in this model. *)
 Theorem C17_exec_annotation_blind_partial : forall {A B} (f : A -> B) d p s,
   exec (f d) (map (imap f) p) (map (gmap f) s) = rmap (map (gmap f)) (exec d p s).
 Proof. intros A B f d. exact (exec_gmap f d). Qed.
@@ -82,3 +90,14 @@ Example C17_ex_get3 :
   exec tt [IPush (erase ex_comb); IGet 3] [] = Ok [GInt tt T_int 2] /\
   to_mich Optimized ex_comb = NSeq [NInt 1; NInt 2; NInt 3; NInt 4].
 Proof. repeat split. Qed.
+
+(* the same value read from its literal at the annotated type, through a conditional and a DIP *)
+Definition ex_ty : aty :=
+  TyPair no_ann (TyPrim (ex_a [x61]) T_int)
+    (TyPair (ex_a [x62]) (TyPrim (ex_a [x63]) T_int)
+       (TyPair (ex_a [x64]) (TyPrim (ex_a [x65]) T_int) (TyPrim (ex_a [x66]) T_int))).
+Example C17_ex_read :
+  read ex_ty (NPrim P_Pair [NInt 1; NInt 2; NInt 3; NInt 4] []) = Some ex_comb /\
+  run_prog [IPushT ex_ty (NSeq [NInt 1; NInt 2; NInt 3; NInt 4]); ISome;
+            IIfNone IUnit (ISeq IDup (IDip 1 (IGet 6)))] = Ok [ex_comb; GInt (ex_a [x66]) T_int 4].
+Proof. split; reflexivity. Qed.
